@@ -49,9 +49,9 @@ def norm_proto(pj):
     return [{"name": s["name"], "ty": norm_ty(s["ty"]), "stream": s["stream"]} for s in pj]
 
 
-def schemas_of(root, pkg, ybin, inproc, rng, report, what, matlab=True, expanded_p=0.25):
+def schemas_of(root, pkg, ybin, inproc, rng, report, what, matlab=True, expanded_p=0.25, versions=None):
     """generate (python + cpp + matlab text only) and collect the schema literal of each protocol per source."""
-    d = vlib.write_package(root, pkg, rng, cpp=True, python=True, matlab=matlab, js=False, ndjson=False, expanded_p=expanded_p)
+    d = vlib.write_package(root, pkg, rng, cpp=True, python=True, matlab=matlab, js=False, ndjson=False, expanded_p=expanded_p, versions=versions)
     rc, out, err = vlib.yardl(ybin, d, "generate")
     if rc != 0:
         return None, f"generate failed: {err[-800:]}", d
@@ -61,6 +61,9 @@ def schemas_of(root, pkg, ybin, inproc, rng, report, what, matlab=True, expanded
     cpp_text = open(os.path.join(root, "out_cpp", "protocols.cc")).read()
     for m in re.finditer(r'std::string (\w+)WriterBase::schema_ = R"\((.*?)\)";', cpp_text, re.S):
         res.setdefault(m.group(1), {})["cpp"] = m.group(2)
+    # the schemas of the previous versions the generated readers accept
+    for m in re.finditer(r'std::vector<std::string> (\w+)WriterBase::previous_schemas_ = \{(.*?)\n\};', cpp_text, re.S):
+        res.setdefault(m.group(1), {})["cpp_previous"] = re.findall(r'R"\((.*?)\)"', m.group(2), re.S)
     if matlab:
         mdir = os.path.join(root, "out_matlab", "+" + ns)
         for fn in os.listdir(mdir) if os.path.isdir(mdir) else []:
@@ -133,7 +136,7 @@ def _plan_and_targets(report, lean, name, pkg, schemas, root, seed):
         report.case(distinct_key=(name, pname) if nontrivial else None,
                     sample={"model": name, "protocol": pname, "schema": srcs.get("python", "")[:300]} if report.evaluations % 40 == 0 else None)
         report.count("schemas")
-        texts = {k: v for k, v in srcs.items()}
+        texts = {k: v for k, v in srcs.items() if k != "cpp_previous"}
         if len(set(texts.values())) != 1 or not {"python", "cpp", "inproc"} <= set(texts):
             report.violation("schema-differs-between-targets", {"model": name, "protocol": pname, "sources": {k: v[:3000] for k, v in texts.items()},
                                                                 "files": _files(root), "seed": seed},
@@ -215,16 +218,27 @@ def _neutral_edits(report, sc, ybin, inproc, name, g, pkg, base, rng, quick, see
 
 
 def _affecting_edits(report, sc, ybin, inproc, name, g, pkg, base, rng, quick, seed):
-    for k in range(2 if quick else 8):
-        try:
-            p2, edit = neighbour(pkg, rng)
-        except Exception:
-            continue
+    for k in range(-1, 2 if quick else 8):
+        if k == -1:
+            # always: an optional field appended to every record (a documented compatible change, so the package with the
+            # model before the edit declared as its previous version is accepted)
+            p2, edit = copy.deepcopy(pkg), "field:add-optional-field-to-every-record"
+            if not any(d["kind"] == "record" and not d["tparams"] for d in p2.defs):
+                continue
+            for d in p2.defs:
+                if d["kind"] == "record" and not d["tparams"]:
+                    d["fields"] = list(d["fields"]) + [("zzAdded", ("opt", ("prim", "int32")))]
+        else:
+            try:
+                p2, edit = neighbour(pkg, rng)
+            except Exception:
+                continue
         root = sc.path(f"{name}-aff{k}")
         s2, err, d = schemas_of(root, p2, ybin, inproc, random.Random(seed + 7), report, edit, matlab=False)
         if s2 is None:
             report.count("affecting.rejected-by-yardl")
             continue
+        _declared_previous_version(report, sc, ybin, inproc, name, pkg, p2, base, s2, edit, k, seed)
         for proto in pkg.protocols():
             pname = proto["name"]
             p2proto = [x for x in p2.protocols() if x["name"] == pname]
@@ -238,6 +252,36 @@ def _affecting_edits(report, sc, ybin, inproc, name, g, pkg, base, rng, quick, s
                 report.violation("wire-affecting-edit-keeps-schema", {"model": name, "edit": edit, "protocol": pname, "schema": base[pname]["python"][:4000],
                                                                        "files_before": _files(sc.path(name)), "files_after": _files(root), "seed": seed},
                                  "the encoding of the protocol changed but its schema text did not")
+
+
+def _declared_previous_version(report, sc, ybin, inproc, name, pkg, p2, base, s2, edit, k, seed):
+    """the edited model `p2` with the model before the edit declared as its previous version: the schema of the current
+    version is a function of the current model alone (same text as without `versions:`), and the schemas the generated
+    readers accept for the previous version are the schemas of that version's own model"""
+    rootv = sc.path(f"{name}-aff{k}-versioned")
+    rel = os.path.relpath(os.path.join(sc.path(name), "pkg_" + pkg.namespace), os.path.join(rootv, "pkg_" + p2.namespace))
+    sv, err, d = schemas_of(rootv, p2, ybin, inproc, random.Random(seed + 7), report, edit, matlab=False, versions=[("v0", rel)])
+    report.case(distinct_key=(name, "declared-previous-version", edit))
+    if sv is None:
+        report.count("versioned.rejected-as-incompatible")
+        return
+    report.count("versioned.accepted")
+    replay = {"model": name, "edit": edit, "files_previous": _files(sc.path(name)), "files_current": _files(rootv), "seed": seed}
+    for pname, srcs in s2.items():
+        for src in ("python", "cpp", "inproc"):
+            if src in srcs and srcs[src] != sv.get(pname, {}).get(src):
+                report.violation(f"declaring-a-previous-version-changes-the-schema:{src}",
+                                 dict(replay, protocol=pname, without_versions=srcs[src][:3000], with_versions=str(sv.get(pname, {}).get(src))[:3000]),
+                                 "the schema text of the current version depends on something other than the current model")
+                return
+        prev = sv.get(pname, {}).get("cpp_previous")
+        if prev and pname in base and base[pname].get("cpp") is not None:
+            report.count("versioned.previous-schema-checked")
+            if prev != [base[pname]["cpp"]]:
+                report.violation("previous-schema-is-not-the-previous-version's", dict(replay, protocol=pname, previous_schemas=[x[:2000] for x in prev],
+                                                                                       schema_of_previous_model=base[pname]["cpp"][:2000]),
+                                 "the schema the generated reader accepts for the previous version is not the schema of that version's model")
+                return
 
 
 def _known_finding_flags(report, sc, ybin, inproc, rng):
